@@ -56,7 +56,9 @@ def _title(rng, tag):
     """Single-line ASCII titles: plain, with punctuation / quotes / brackets inside, with repeated inner blanks."""
     n = int(rng.integers(1_000_000))
     return [f"{tag} {n} generated", f"{tag} (run {n}; b3lyp/6-31g*) = 50% a/b #tag", f"{tag} 'quoted' \"double\" x [y] {{z}} {n}",
-            f"{tag}  two  blanks   inside {n}", f"{n}", f"{tag}_{n}: E=-1.5e+01, <S^2>=0.75 & more"][int(rng.integers(6))]
+            f"{tag}  two  blanks   inside {n}", f"{n}", f"{tag}_{n}: E=-1.5e+01, <S^2>=0.75 & more",
+            # longer than the 72 / 80 columns some formats reserve for it (still a single line)
+            f"{tag} {n} " + "long title copied from the comment line of a geometry optimisation " * 2 + "end"][int(rng.integers(7))]
 
 
 def make(fmt, rng, klass="small"):
